@@ -9,6 +9,8 @@ import (
 	"path/filepath"
 	"strconv"
 	"strings"
+	"unicode"
+	"unicode/utf8"
 
 	"github.com/200sc/bebop/internal/importgraph"
 	"github.com/200sc/bebop/iohelp"
@@ -555,7 +557,7 @@ func (en Enum) Generate(w *iohelp.ErrorWriter, settings GenerateSettings) {
 		for _, opt := range en.Options {
 			writeComment(w, 1, opt.Comment, settings)
 			if opt.Deprecated {
-				writeLine(w, "\t// Deprecated: %s", opt.DeprecatedMessage)
+				writeLine(w, "\t// Deprecated: %s", commentText(opt.DeprecatedMessage, "\t"))
 			}
 			if en.Unsigned {
 				writeLine(w, "\t%s_%s %s = %d", exposedName, opt.Name, exposedName, opt.UintValue)
@@ -595,7 +597,7 @@ func (con Const) Generate(w io.Writer, settings GenerateSettings) {
 func writeFieldDefinition(fd Field, w *iohelp.ErrorWriter, readOnly bool, message bool, settings GenerateSettings) {
 	writeComment(w, 1, fd.Comment, settings)
 	if fd.Deprecated {
-		writeLine(w, "\t// Deprecated: %s", fd.DeprecatedMessage)
+		writeLine(w, "\t// Deprecated: %s", commentText(fd.DeprecatedMessage, "\t"))
 	}
 
 	name := exposeName(fd.Name, settings)
@@ -815,17 +817,26 @@ func exposeName(name string, settings GenerateSettings) string {
 	if settings.PrivateDefinitions {
 		return unexposeName(name)
 	}
-	if name == "" {
+	// identifiers may start with any letter, not only a single-byte one
+	first, size := utf8.DecodeRuneInString(name)
+	if size == 0 {
 		return ""
 	}
-	return strings.ToUpper(string(name[0])) + name[1:]
+	return string(unicode.ToUpper(first)) + name[size:]
 }
 
 func unexposeName(name string) string {
-	if name == "" {
+	first, size := utf8.DecodeRuneInString(name)
+	if size == 0 {
 		return ""
 	}
-	return strings.ToLower(string(name[0])) + name[1:]
+	return string(unicode.ToLower(first)) + name[size:]
+}
+
+// commentText prepares free text from the schema for a '//' comment at the
+// given indentation: every line of it has to be commented.
+func commentText(text string, indent string) string {
+	return strings.ReplaceAll(text, "\n", "\n"+indent+"// ")
 }
 
 func writeWrappers(w *iohelp.ErrorWriter, name string, isEmpty bool, settings GenerateSettings) {
